@@ -378,11 +378,11 @@ var checks = map[string]Check{
 	},
 	"C18": {
 		Level:       "model_checking",
-		Rule:        "(a) all histories up to depth 5 (quick) / 7 over {connect, remote close i, local close i, update limit to 1/2/3} with N in {1,2} against a counter model (admit iff live < limit, rejected closed, CountSession exact); (b) all interleavings (preemption bound) of 3 concurrent connects with one early disconnect: never more than N admitted at once and exactly N admitted afterwards; (c) token bucket: taker threads x attempts against refill ticks delivered to the limiter's own goroutine, all interleavings: admitted <= capacity + refill x ticks + ticks",
+		Rule:        "(a) all histories up to depth 5 (quick) / 7 over {connect, remote close i, local close i, update limit to 0 (off)/1/2/3} with N in {1,2} against a counter model (admit iff the limit is off or live < limit, where live counts every admitted session that has not ended, rejected closed, CountSession exact); (b) all interleavings (preemption bound) of 3 concurrent connects with one early disconnect: never more than N admitted at once and exactly N admitted afterwards; (c) token bucket: taker threads x attempts against refill ticks delivered to the limiter's own goroutine, all interleavings: admitted <= capacity + refill x ticks + ticks",
 		Assumptions: baseAssumptions,
 		Jobs: func(tier string) []Job {
 			if tier == "thorough" {
-				a := sched("c18_hist", "depth=7", 0, 16)
+				a := sched("c18_hist", "depth=7,off=1", 0, 16)
 				b := sched("c18_race", "threads=3", 3, 16)
 				b.Budget = 600
 				c := sched("c18_qps", "takers=3,takes=2,ticks=2", 3, 16)
@@ -391,7 +391,7 @@ var checks = map[string]Check{
 				d.Budget = 600
 				return []Job{a, b, c, d}
 			}
-			return []Job{sched("c18_hist", "depth=5", 0, 4), sched("c18_race", "threads=3", 2, 8), sched("c18_qps", "takers=2,takes=3,ticks=2", 2, 2), sched("c18_qps", "takers=1,takes=6,ticks=1", 3, 1)}
+			return []Job{sched("c18_hist", "depth=5,off=1", 0, 4), sched("c18_race", "threads=3", 2, 8), sched("c18_qps", "takers=2,takes=3,ticks=2", 2, 2), sched("c18_qps", "takers=1,takes=6,ticks=1", 3, 1)}
 		},
 	},
 	"C19": {
